@@ -493,6 +493,30 @@ func init() {
 			}
 			return r.(*TupleV).E[1], nil
 		},
+		"regexp.MustCompile": func(e *Exec, fn *ssa.Function, a []Value) (Value, *GoPanic) {
+			// regular-expression matching is outside the model: the compiled object is a placeholder,
+			// using it (MatchString, FindStringSubmatch, ...) makes the path inconclusive
+			t := fn.Signature.Results().At(0).Type().(*types.Pointer).Elem()
+			return &Ptr{Obj: e.newObj(e.zero(t), "regexp")}, nil
+		},
+		"internal/bytealg.Count": func(e *Exec, fn *ssa.Function, a []Value) (Value, *GoPanic) {
+			tb := e.tb
+			c := a[1].(*Term)
+			n := tb.Const(64, 0)
+			for _, v := range e.sliceVals(a[0]) {
+				n = tb.Add(n, tb.Ite(tb.Eq(v.(*Term), c), tb.Const(64, 1), tb.Const(64, 0)))
+			}
+			return n, nil
+		},
+		"internal/bytealg.CountString": func(e *Exec, fn *ssa.Function, a []Value) (Value, *GoPanic) {
+			tb := e.tb
+			c := a[1].(*Term)
+			n := tb.Const(64, 0)
+			for _, v := range strBytes(a[0]) {
+				n = tb.Add(n, tb.Ite(tb.Eq(v, c), tb.Const(64, 1), tb.Const(64, 0)))
+			}
+			return n, nil
+		},
 		"time.After": timeAfter,
 		"time.Now":   timeNow,
 		"time.Since": timeSince,
@@ -716,21 +740,23 @@ func bytesIndexByte(e *Exec, fn *ssa.Function, a []Value) (Value, *GoPanic) {
 
 func stringsSplit(e *Exec, fn *ssa.Function, a []Value) (Value, *GoPanic) {
 	s, sep := strBytes(a[0]), strBytes(a[1])
-	if len(sep) != 1 {
-		cs, ok1 := strConcrete(a[0].(*StrV))
-		csep, ok2 := strConcrete(a[1].(*StrV))
-		if ok1 && ok2 {
-			parts := strings.Split(cs, csep)
-			return e.strSlice(parts), nil
-		}
-		panic(unsupported("strings.Split with multi-byte separator on symbolic string"))
+	if len(sep) == 0 {
+		panic(unsupported("strings.Split with empty separator"))
 	}
 	var parts []Value
 	start := 0
-	for i := 0; i < len(s); i++ {
-		if e.branch(e.tb.Eq(s[i], sep[0])) {
+	k := len(sep)
+	for i := 0; i+k <= len(s); {
+		m := e.tb.T
+		for j := 0; j < k; j++ {
+			m = e.tb.And(m, e.tb.Eq(s[i+j], sep[j]))
+		}
+		if e.branch(m) {
 			parts = append(parts, &StrV{B: s[start:i]})
-			start = i + 1
+			i += k
+			start = i
+		} else {
+			i++
 		}
 	}
 	parts = append(parts, &StrV{B: s[start:]})
